@@ -580,12 +580,12 @@ theorem finv_saveDoc {s s' : State} (id : Nat) (t : Task) (h : FInv s) (htm : t 
 theorem finv_retain_pre {s s' : State} (ids : List Nat) (h : FInv s)
     (hf : s'.files = s.files) (hl : s'.db.levels = s.db.levels) (hn : s'.db.nextId = s.db.nextId)
     (hw : s'.wal.id = s.wal.id)
-    (hc : s'.ckpts = s.ckpts.filter (fun c => ids.contains c.id))
-    (hp : s'.pending = s.pending ++ s.ckpts.filter (fun c => !ids.contains c.id))
+    (hc : s'.ckpts = s.ckpts.filter (fun c => keeps ids c.id))
+    (hp : s'.pending = s.pending ++ s.ckpts.filter (fun c => !keeps ids c.id))
     (ht : s'.tasks = s.tasks) (hd : s'.done = s.done) (hu : s'.used = s.used) : FInv s' := by
-  have memc : ∀ c, c ∈ s'.ckpts → c ∈ s.ckpts ∧ ids.contains c.id = true := by
+  have memc : ∀ c, c ∈ s'.ckpts → c ∈ s.ckpts ∧ keeps ids c.id = true := by
     intro c hc'; rw [hc] at hc'; exact List.mem_filter.1 hc'
-  have memp : ∀ p, p ∈ s'.pending → p ∈ s.pending ∨ (p ∈ s.ckpts ∧ ids.contains p.id = false) := by
+  have memp : ∀ p, p ∈ s'.pending → p ∈ s.pending ∨ (p ∈ s.ckpts ∧ keeps ids p.id = false) := by
     intro p hp'; rw [hp] at hp'
     rcases List.mem_append.1 hp' with h' | h'
     · exact Or.inl h'
